@@ -34,8 +34,8 @@ DefaultComponentDataStorage::DefaultComponentDataStorage(const ComponentIdMask& 
         auto offset = ComponentOffset::make(0u);
         mask.forEachItem([this, &offset, &mask](ComponentId id) {
             const auto& info = ComponentFactory::instance().componentInfo(id);
-            if (offset.toInt() == 0) {
-                chunk_align_ = static_cast<uint32_t>(info.align);
+            if (chunk_align_ < static_cast<uint32_t>(info.align)) {
+                chunk_align_ = static_cast<uint32_t>(info.align); // the chunk must satisfy the strictest component
             }
             ComponentDataGetter getter;
             getter.offset = offset.alignAs(static_cast<uint32_t>(info.align));
